@@ -149,6 +149,7 @@ func (b *Body) callSiteClauses(key string, c *ssa.CallCommon, sig *types.Signatu
 		}
 		ft.callSiteHits[cl]++
 		env := ft.fnEnv(b, st)
+		env.at = b.curBlock
 		cenv := b.calleeEnv(ft.e.contracts.Fns[key], sig, c.IsInvoke(), args, st, ft.entry)
 		for k, v := range cenv.vars {
 			if _, exists := env.vars[k]; !exists || !strings.HasPrefix(k, "a") {
